@@ -441,4 +441,9 @@ def main_wrapper(fn):
   except MachineryError as e:
     print(f'MACHINERY-FAILURE: {e}', file=sys.stderr)
     sys.exit(2)
+  except Exception:  # pylint: disable=broad-except
+    import traceback  # pylint: disable=g-import-not-at-top
+    traceback.print_exc()
+    print('MACHINERY-FAILURE: unexpected exception in the harness', file=sys.stderr)
+    sys.exit(2)
   sys.exit(rc)
